@@ -1,0 +1,13 @@
+//go:build verif
+
+// Contracts for package kv, checked by /verif (govc). Ghost declarations only.
+package kv
+
+// ghostSeqNum: the sequence number an entry reports (entries are immutable).
+var ghostSeqNum func(e Entry) uint64
+
+//@ func Entry.SeqNum
+//@   property C07
+//@   trusted
+//@   modifies nothing
+//@   ensures result == ghostSeqNum(self)
